@@ -206,11 +206,17 @@ def run_case(case):
                 verify(root, k, proof[:i] + [bad] + proof[i + 1:], truth, "altered", withheld=(i in hashed_idx and bad != proof[i]))
                 # added: the forged node is offered next to the honest ones
                 verify(root, k, [bad] + proof, truth, "altered-added")
+        def proof_of(tr, kk):
+            try:
+                return list(tr.get_proof(kk))
+            except Exception as e:  # noqa
+                res.fail("get-proof-raised", "get_proof(%r) raised %r" % (kk, e))
+                return []
         k2 = rng.choice(probes)
-        p2 = list(trie.get_proof(k2))
+        p2 = proof_of(trie, k2)
         verify(root, k, p2, truth, "other-key", withheld=any(proof[i] not in p2 for i in hashed_idx))
         # nodes of another trie, alone and mixed in; the other trie's root
-        op = list(otrie.get_proof(k))
+        op = proof_of(otrie, k)
         verify(root, k, op, truth, "foreign-nodes", withheld=any(proof[i] not in op for i in hashed_idx))
         verify(root, k, op + proof, truth, "foreign-mixed")
         verify(otrie.root_hash, k, proof + op, omodel.get(k, b""), "foreign-root")
